@@ -1359,9 +1359,9 @@ class Tensor:
 
         # Maintain the formats
         for rank_id in tensor.getRankIds():
-            if rank_id == id + ".1":
+            if rank_id == f"{id}.1":
                 old_id = id
-            elif rank_id == id + ".0":
+            elif rank_id == f"{id}.0":
                 old_id = id
             else:
                 old_id = rank_id
